@@ -38,19 +38,24 @@ CLAIMED = {
         "buffer is named by nobody; C03_handles_live; C03_no_leak — when all handles are gone no block is live."),
         note=TB + " The real allocator is represented by an oracle that may refuse any request; the shadow heap in the harness (guard zones, poison, quarantine, always-moving realloc) is the runtime counterpart.",
         technique="Coq: invariant (refcount = number of handles) preserved by every operation; shadow-heap monitors on the real crate", design='§7 C03'),
-    'C04': dict(text=("PARTIAL (stated as such). Theorems: C04_protocol_safe_all_schedules — a reference-count protocol machine (vector clocks for happens-before, C11 release/acquire "
-        "rules, release sequences through RMWs, acquire loads that may read ANY not-yet-overwritten message, acquire fence, handles moved at spawn, joins) never reaches a data race, a use "
-        "after free or a double free, for any number of threads and every schedule (invariant J1-J8, C04_invariant); C04_clone/drop/reserve/ensure_modifiable_respects_protocol — the "
-        "command trees of the modelled functions perform, whatever values the shared memory returns, only actions whose protocol precondition holds (buffer written/reallocated only "
-        "after an acquire load returned 1 while holding a reference, read only while holding one, reference given up last, dealloc only by the thread whose decrement read 1, after the "
-        "fence); C04_atomic_sites — the atomic call sites regenerated from the source are exactly the expected ones and their orderings are at least Release (decrement), Acquire (fence, "
-        "uniqueness load). NOT proved: the composition of the thread-local typing with the protocol machine into one theorem about whole programs, the typing of the remaining "
-        "functions (shrink_to, clear, push_str, insert_str, remove, retain: they only add writes after reserve/ensure_modifiable returned an exclusive handle), per-thread sequential "
-        "results, and lending &LeanString across threads. Tie to the code: the real crate built with --cfg loom --cfg lean_string_verif; every buffer gets a loom UnsafeCell touched by the "
-        "crate's access notes, so loom's causality checker reports unordered conflicting accesses and the shim reports accesses to freed buffers; 273 two-thread programs (13 ops x 13 ops x 3 "
-        "sharing variants), each thread checked against String, all buffers freed at the end of every execution."),
-        note=TB + " The C11 fragment formalised in conc/Mach.v is hand-written; 'stronger orderings are also fine' is a monotonicity argument, not a theorem; loom does not explore every C11 relaxed behaviour; hardware and compiler are out of scope.",
-        technique="Coq: invariant over a vector-clock protocol machine (all schedules, stale reads) + demonic typing of command trees; loom exploration of the real crate with buffer-access cells", design='§7 C04'),
+    'C04': dict(text=("PARTIAL in one respect only (per-thread sequential results, see the end). Theorems: C04_protocol_safe_all_schedules / C04_invariant — a reference-count protocol machine "
+        "(vector clocks for happens-before, C11 release/acquire rules, release sequences through RMWs, acquire loads that may read ANY not-yet-overwritten message, acquire fence as its own "
+        "action, header read by the freeing thread, dealloc only after the fence, handles moved at spawn, joins) never reaches a data race, a use after free or a double free, for any number "
+        "of threads and every schedule (invariant J1-J8); C04_clone/drop/reserve/ensure_modifiable_respects_protocol and C04_every_operation_respects_protocol — the command trees of ALL "
+        "modelled readers and mutators (as_bytes, push_str, pop, truncate, remove, insert_str, retain, clear, shrink_to, reserve, clone, drop) perform, whatever values shared memory returns, only "
+        "events whose protocol precondition holds; the typing also checks the orderings regenerated from the source (decrement at least Release, uniqueness load and the fence at least Acquire, "
+        "fence before the header read and the dealloc); COMPOSITION: C04_typed_step / C04_typed_safe / C04_typed_progress (Compose.v) — in the interleaving semantics that runs thread programs "
+        "(command trees, spawn with k handles, join) event by event against the protocol machine, well-typedness is preserved by every step, so no reachable configuration can make a racy / "
+        "use-after-free / double-free step, and the head event of every started thread is enabled; C04_shared_handles_typed / _safe (Programs.v) — for EVERY number of threads and EVERY "
+        "operation sequence per thread (thread 0 clones once per child, moves a clone into each spawned thread, every thread runs its sequence on its handle and drops it, thread 0 joins) the "
+        "initial configuration is well typed, hence all of the above holds for every interleaving and every admissible stale read; C04_atomic_sites — the atomic call sites regenerated from the "
+        "source are exactly the expected ones. NOT proved: that each thread reads back exactly what its own operations would produce sequentially (the data content under interleaving; the "
+        "theorems give race freedom, which is what makes the sequential theorem C01 applicable to each thread's buffer accesses, but that last step is an argument, not a theorem), and lending "
+        "&LeanString across threads (a borrowed handle only reads: covered by the machine's ARead with the owner's reference, not by a typing rule). Tie to the code: the real crate built with "
+        "--cfg loom --cfg lean_string_verif; every buffer gets a loom UnsafeCell touched by the crate's access notes, so loom's causality checker reports unordered conflicting accesses and the "
+        "shim reports accesses to freed buffers; 273 two-thread programs (13 ops x 13 ops x 3 sharing variants), each thread checked against String, all buffers freed at the end of every execution."),
+        note=TB + " The C11 fragment formalised in conc/Mach.v is hand-written; the ghost state of Proto.okc is carried by the interleaving semantics as instrumentation (it constrains only the freshness of allocated buffer ids); buffer ids are never reused in the model; 'stronger orderings are also fine' is checked by the typing (at-least tests), not by the machine; loom does not explore every C11 relaxed behaviour; hardware and compiler are out of scope.",
+        technique="Coq: invariant over a vector-clock protocol machine (all schedules, stale reads) + demonic typing of all command trees + preservation/progress for the interleaving semantics of typed thread programs; loom exploration of the real crate with buffer-access cells", design='§7 C04'),
     'C05': dict(text=T("Theorems, for every allocator oracle (so for every single, paired or longer fault sequence): C05_failure_changes_nothing — when push, push_str, "
         "insert, insert_str, remove, retain, reserve or shrink_to reports a ReserveError (try form) or panics with it (plain form) the pool and the heap are "
         "exactly as before; C05_iterators_stop_between_items — extend / write! stop after some prefix of the items; C05_ctor_failure_leaves_nothing — a failed "
